@@ -56,6 +56,8 @@ def shards(tier: str, seed: int):
     out.append(["ticking"])
     out.append(["walk", 0])
     out.append(["walk", 1])
+    out.append(["walk", 2])
+    out.append(["walk", 3])
     if tier == "thorough":
         first = gkdi.EPOCH_FILETIME // B + 1
         last = (gkdi.EPOCH_FILETIME + int(230 * 365.25 * 86400 * 10**7)) // B
@@ -329,13 +331,20 @@ def run_shard(shard, tier, seed, acc) -> None:
         t0 = 363 * 1024 * B + 2 * 32 * B + 20 * B + 1234
         if shard[1] == 0:
             times = [t0 + k * B + d for k in range(0, 140) for d in (0, B // 2)]
+        elif shard[1] in (2, 3):
+            # ALL 1024 (L1, L2) positions of one L0 in one process: in ascending order, then ordered by (L2, L1) - any two positions
+            # whose indexes could be confused (digit strings, packed integers, swapped order) meet each other in both orders
+            pos = [(a_, b_) for a_ in range(32) for b_ in range(32)]
+            if shard[1] == 3:
+                pos = sorted(pos, key=lambda p_: (p_[1], -p_[0]))
+            times = [364 * 1024 * B + a_ * 32 * B + b_ * B + 77 for a_, b_ in pos]
         else:
             times = []
             for k in range(0, 6):
                 times += [t0 + k * 1024 * B, t0 + k * 32 * B, t0 + k * 1024 * B + 5 * B, t0 + k * 33 * B, t0 + k * 31 * B]
             times = times + times[::-1]
         for tt in times:
-            for api in ("sync",) if shard[1] == 0 else ("sync", "async"):
+            for api in ("sync",) if shard[1] in (0, 2, 3) else ("sync", "async"):
                 v, oc = case(seed, tt, 0, api, cache=cache)
                 n += 1
                 acc.outcome("walk:" + oc)
